@@ -17,7 +17,7 @@ import struct
 from common import coq
 
 PID = "C45"
-GENS = ["c45"]
+GENS = ["c39", "c45"]     # C45 builds on C39's codec lemmas, whose constants come from gen/c39.py
 LEVEL_TEXT = ("Machine-checked proof (Coq, closed under the global context) over a model of "
               "AgentKey.sign_ssh_data / AgentSSH._send_message built on the generated ALGORITHM_FLAG_MAP: flags "
               "are 2 exactly for rsa-sha2-256 and its certificate form, 4 exactly for rsa-sha2-512 and its "
@@ -196,7 +196,8 @@ def run(ctx):
                 "certificates, unknown types, empty; algorithm names: everything in Transport._preferred_keys / "
                 "_preferred_pubkeys / ALGORITHM_FLAG_MAP and the certificate form of each, None, omitted, and "
                 "near-miss / unknown names; replies: a framed reply of every type 0..255 (exhaustive), "
-                "well-formed SIGN_RESPONSEs with random signatures, truncated frames, EOF, short bodies, "
+                "well-formed SIGN_RESPONSEs with random signatures and with STRUCTURED signature blobs (every requested "
+                "algorithm x signature format names incl. an agent ignoring the flags, malformed blobs), truncated frames, EOF, short bodies, "
                 "over-long declared lengths, trailing bytes; recv() chunked randomly; plus sessions of 2..5 sign "
                 "calls on the same AgentKey objects (1-2 keys) over one agent connection with different data / "
                 "algorithms / reply types, every call checked. Non-trivial = distinct case")
@@ -246,6 +247,35 @@ def run(ctx):
             chosen = list(REF_FLAGS) + [None, OMIT] + rng.sample(others, 3 if not ctx.thorough else 10)
         for alg in chosen:
             signed_case(label, blob, alg)
+    # 1b. STRUCTURED signature blobs: string(signature format name) + string(signature bytes), every
+    #     requested algorithm x every format name an agent may answer with - including an agent that
+    #     ignores the flags (ssh-rsa answered to an rsa-sha2-* request) and malformed / truncated blobs.
+    #     The SIGN_RESPONSE payload must come back as is, whatever it contains.
+    sig_names = [b"ssh-rsa", b"rsa-sha2-256", b"rsa-sha2-512", b"ssh-ed25519", b"ecdsa-sha2-nistp256",
+                 b"ssh-rsa-cert-v01@openssh.com", b"ssh-dss", b"", b"ssh-rsa\x00", b"SSH-RSA"]
+
+    def structured(name):
+        body = bytes(rng.randrange(256) for _ in range(rng.choice([0, 8, 64])))
+        m = rng.randrange(8)
+        if m == 0:
+            return sstr(name)                                   # name only, no signature field
+        if m == 1:
+            return sstr(name) + sstr(body) + b"extra"           # trailing bytes inside the blob
+        if m == 2:
+            return sstr(name)[:rng.randrange(1, 4 + len(name) + 1)]   # truncated inside the name
+        return sstr(name) + sstr(body)
+
+    flagged = list(REF_FLAGS) + [None, OMIT, "ssh-rsa", "ssh-ed25519"]
+    rest = [a for a in algs if a not in flagged]
+    for i, alg in enumerate(flagged + rest):
+        names = sig_names if (alg in flagged or ctx.thorough) else rng.sample(sig_names, 2)
+        for j, name in enumerate(names):
+            label, blob = small[(i + j) % len(small)]
+            if alg in REF_FLAGS and j < 3:
+                label, blob = keys[0]                           # the RSA key, as in real use
+            sig = structured(name)
+            one(label, blob, b"to-be-signed-%d" % j, alg, good_reply(sig), "structured-signature", expect=("ok", sig))
+
     # 2. every reply type (exhaustive), small key
     for t in range(256):
         label, blob = small[t % len(small)]
@@ -303,6 +333,8 @@ def run(ctx):
             alg = rng.choice(list(REF_FLAGS) + [None, OMIT, "ssh-rsa", "ssh-ed25519", rng.choice(algs)])
             data = bytes(rng.randrange(256) for _x in range(rng.choice([0, 1, 7, 32, 48])))
             sig = bytes(rng.randrange(256) for _x in range(rng.choice([0, 3, 16, 64])))
+            if rng.random() < 0.4:
+                sig = sstr(rng.choice(sig_names)) + sstr(sig)
             if rng.random() < 0.8:
                 reply, exp = good_reply(sig), ("ok", sig)
             else:
